@@ -264,7 +264,8 @@ Inductive case :=
 | CRing (steps : list ringstep) (final : dump)
 | CSess (c : cfgspec) (steps : list sstepobs)
 | CWindow (n : nat) (delivered : list Z)
-| CCluster (c : cfgspec) (steps : list cstep).   (* n frames numbered 0..n-1 into one debounce window: the numbers flush delivers *)
+| CCluster (c : cfgspec) (steps : list cstep)
+| CHandover (first second : nat) (batch1 batch2 : list Z).  (* a window is flushed, `second` frames arrive before its callback reads: what the two callbacks saw *)   (* n frames numbered 0..n-1 into one debounce window: the numbers flush delivers *)
 
 Definition check (c : case) : bool :=
   match c with
@@ -275,6 +276,9 @@ Definition check (c : case) : bool :=
   | CSess cs steps => check_sess (cfg_of cs) empty_sess steps
   | CWindow n delivered => zlist_eqb delivered (firstn window_cap (map Z.of_nat (seq 0 n)))
   | CCluster cs steps => check_cluster (cfg_of cs) empty_sess steps
+  | CHandover first second b1 b2 =>
+      zlist_eqb b1 (firstn window_cap (map Z.of_nat (seq 0 first)))
+      && zlist_eqb b2 (firstn window_cap (map (fun i => 1000000 + Z.of_nat i) (seq 0 second)))
   end.
 
 Definition run (cs : list case) : list N := mismatches check cs.
